@@ -1,4 +1,5 @@
 import RpmVerif.Driver.C13
+import RpmVerif.Driver.C01
 /-! Driver: one request per line in (`<op> <args…> => <impl observation>`), one answer per line
 out (`<model observation> | <spec verdict> | <branch label>`).
 Each property contributes `Driver/Cxx.lean` with `ops : List String` and
@@ -6,7 +7,8 @@ Each property contributes `Driver/Cxx.lean` with `ops : List String` and
 open RpmVerif.Driver
 
 def handlers : List (List String × (String → List String → String → String)) := [
-  (C13.ops, C13.handle)
+  (C13.ops, C13.handle),
+  (C01.ops, C01.handle)
 ]
 
 def dispatch (line : String) : String :=
@@ -22,10 +24,23 @@ def dispatch (line : String) : String :=
     | some h => h.2 op args impl
     | none => badReq ("unknown-op:" ++ op)
 
+/-- arguments of the form `@path` are replaced by the hex of the file's bytes -/
+def resolveBlobs (line : String) : IO String := do
+  if !line.contains '@' then return line
+  let (req, rest) := match line.splitOn " => " with
+    | r :: rest => (r, rest)
+    | [] => ("", [])
+  let toks ← (req.splitOn " ").mapM fun t => do
+    if t.startsWith "@" then
+      let bytes ← IO.FS.readBinFile (t.drop 1).toString
+      pure (RpmVerif.hexOrDash bytes.toList)
+    else pure t
+  return " => ".intercalate (" ".intercalate toks :: rest)
+
 partial def loop (h : IO.FS.Stream) (out : IO.FS.Stream) : IO Unit := do
   let line ← h.getLine
   if line.isEmpty then return ()
-  let l := (line.trimAsciiEnd).toString
+  let l ← resolveBlobs (line.trimAsciiEnd).toString
   out.putStrLn (dispatch l)
   loop h out
 
